@@ -855,9 +855,24 @@ func (st *tunnelClientStream) acceptServerFrame(frame tunnelpb.ServerToClientFra
 		st.finishStream(errors.New("protocol error: unrecognized frame type"), nil)
 
 	default:
+		// The protocol allows a server to omit the response headers frame if
+		// it has no headers to send. So message data also settles the headers
+		// (as empty): Header() must not keep waiting for them.
+		st.settleHeaders()
 		if err := st.receiver.accept(frame); err != nil {
 			st.finishStream(err, nil)
 		}
+	}
+}
+
+// settleHeaders marks the response headers as received, with whatever has
+// been recorded so far, if that has not already happened.
+func (st *tunnelClientStream) settleHeaders() {
+	st.metaMu.Lock()
+	defer st.metaMu.Unlock()
+	if !st.gotHeaders {
+		st.gotHeaders = true
+		close(st.gotHeadersSignal)
 	}
 }
 
